@@ -76,7 +76,7 @@ CHECKS = {
                          dict(harness="c06_parallel", variant="plain", complex=True, runs=40000, tl=400, cfg="big=1")],
         },
         "is_violation": any_nonok,
-        "workload_keys": ["calls", "hrep", "quads", "freqs", "P", "model", "wf", "nosym", "beta", "mp"],
+        "workload_keys": ["G", "calls", "hrep", "quads", "freqs", "P", "model", "wf", "nosym", "beta", "mp"],
         "rule": "one case = one seeded execution of the whole ED workflow SPMD on P simulated ranks with T simulated OpenMP threads, compared with the 1-rank/1-thread reference; "
                 "distinct = distinct interleaving signature (order of all events except unsuccessful polls and stalls); non-trivial = at least 2 ranks or at least 2 OpenMP threads",
     },
